@@ -215,3 +215,49 @@ def electrum_v1_child(k32, change, addr):
     kc = (k + s) % C.n
     P = C.add(M, F.w_mul(SECP, s, C.G))
     return kc, P
+
+
+# ---- the UNFIXED library's derivation step (defect F1), as documented by experiment on the pinned tree:
+# no re-hash; private side reduces (IL + k) mod n whatever IL is and raises Bip32KeyError on a zero child; public
+# side: coincurve (secp256k1) raises ValueError for a scalar 0 or >= n and for a sum at infinity, python-ecdsa
+# (P-256) reduces the scalar and ends in a TypeError when the sum is the point at infinity.  Used only to
+# recognise known finding F1 narrowly (a case is F1 iff the implementation does exactly this on it).
+def child_noretry(x, i, hm=hmac512):
+    curve = x.curve
+    C = WEIER[curve]
+    ib = i.to_bytes(4, "big")
+    if x.priv is not None:
+        I = hm(x.chain, (b"\x00" + x.priv if i >= HARD else x.pubc) + ib)
+        k = (int.from_bytes(I[:32], "big") + int.from_bytes(x.priv, "big")) % C.n
+        if k == 0:
+            return ("err", "Bip32KeyError")
+        kb = k.to_bytes(32, "big")
+        return ("ok", Node(curve, kb, pub_bytes(curve, kb), I[32:], x.depth + 1, i, x.fingerprint()))
+    I = hm(x.chain, x.pubc + ib)
+    il = int.from_bytes(I[:32], "big")
+    if curve == SECP and (il == 0 or il >= C.n):
+        return ("err", "ValueError")
+    P = C.add(F.w_base_mul(curve, il % C.n), C.deser(x.pubc))
+    if P is None:
+        return ("err", "ValueError" if curve == SECP else "TypeError")
+    return ("ok", Node(curve, None, C.ser_c(P), I[32:], x.depth + 1, i, x.fingerprint()))
+
+
+def walk_f1(x, steps, hm=hmac512):
+    """steps: ('child', i) | ('neuter',).  Returns (needs_retry_somewhere, outcome of the unfixed code) where the
+    outcome is ('ok', Node) | ('err', name) | None when the walk leaves the domain of the finding."""
+    needs = False
+    for st in steps:
+        if st[0] == "neuter":
+            x = x.neuter()
+            continue
+        i = st[1]
+        if i > 0xFFFFFFFF or (x.priv is None and i >= HARD) or is_ed(x.curve):
+            return needs, None
+        if retry_needed(x.curve, x.priv, x.pubc, x.chain, i, hm):
+            needs = True
+        r = child_noretry(x, i, hm)
+        if r[0] == "err":
+            return needs, r
+        x = r[1]
+    return needs, ("ok", x)
